@@ -320,7 +320,8 @@ def rockit_side(args):
     out = {"id": mc.get("id")}
     try:
         buf = io.StringIO()
-        with contextlib.redirect_stdout(buf):
+        from ..common import time_limit
+        with time_limit(120), contextlib.redirect_stdout(buf):
             master, Bs, mv = build_multi(mc, rockit)
             cases = [eff_case(mc, i) for i in range(len(Bs))]
             Bs[0].ocp.sample(Bs[0].ocp.t, grid="control")   # forces transcription of the whole tree
